@@ -465,9 +465,9 @@ fn boundary_workload(ctx: &Ctx, n_texts: u64) -> Report {
 }
 
 pub fn run(ctx: &Ctx) -> Outcome {
-    let n_hist = ctx.n(1_500_000, 60_000_000);
+    let n_hist = ctx.n(5_000_000, 120_000_000);
     let mut rep = history_workload(ctx, n_hist, "C12-release");
-    rep.merge(boundary_workload(ctx, ctx.n(60_000, 2_000_000)));
+    rep.merge(boundary_workload(ctx, ctx.n(200_000, 4_000_000)));
     // debug-profile leg (overflow checks, debug_assert): the same history workload in a child process
     super::legs::run_leg(ctx, &mut rep, "debug", "T2N_LEG_DEBUG", &["c12", &ctx.seed.to_string(), &ctx.n(300_000, 6_000_000).to_string()], 600);
     let rule = "histories = random sequences of 1..9 operations over put / put_digit_at / shift / fput / push / freeze / reset with arguments biased to zeros and to the widths the interpreters use (2,3,6,9,12); after every step: rendering is ASCII digits, len() agrees, on Err all queries (to_string,len,is_empty,is_null,peek,is_free,is_position_free,is_range_free,is_ordinal at 9 positions / 6 ranges) unchanged, frozen => refused, non-zero digits kept in order, and status + all queries equal to the positional model wherever the documentation settles the case (undocumented cases end the history); run in the release profile and again in a debug-profile child (overflow checks, debug_assert); plus the state invariants on every builder state crossing apply() in text workloads; non-trivial = history with at least one judged step";
